@@ -29,6 +29,9 @@ OUTSIDE = ("byte identity of files (the shim has no byte content: the claim is t
            "is reached); concurrent writers; names with glob metacharacters; more than 9999 runs")
 
 
+FLOAT_SELFCHECK = True
+
+
 def preload():
     import glotaran.plugin_system.data_io_registration  # noqa: F401
     import glotaran.plugin_system.project_io_registration  # noqa: F401
@@ -286,6 +289,13 @@ def replay(data):
     from glotaran.plugin_system import project_io_registration as pr
     from glotaran.testing import plugin_system as tps
 
+    if data.get("item") is None and len(data["cfg"].get("items", [])) > 1:
+        for it_ in data["cfg"]["items"]:
+            for env_ in ({"target_is_file": True}, {"target_is_dir": True, "dir_nonempty": True}, {"target_is_file": True, "allow_overwrite": True}, {}):
+                v, d = replay({"item": it_, "env": env_, "cfg": data["cfg"]})
+                if v:
+                    return v, d
+        return False, "overwrite protection scenarios behave as documented"
     cfg = data.get("item") or data["cfg"]["items"][0]
     if cfg.get("kind") == "runs":
         return _replay_runs(dict(data, cfg=cfg))
